@@ -70,6 +70,17 @@ def stepC (C : Crypto) (s : Core × Disk) : Op → (Core × Disk) × Obs
   | .has i => (s, .has (s.1.has i))
   | .info => (s, .info s.1.info.length s.1.info.byteLength s.1.info.contiguous s.1.info.writeable)
 
+/-- the storage operations of one API call, in the order they are issued -/
+def journalC (C : Crypto) (s : Core × Disk) : Op → List SOp
+  | .append batch => (s.1.appendBatch C batch).journal
+  | .clear a b => (s.1.clear s.2 a b).journal
+  | .get i => (s.1.getBlock s.2 i).journal
+  | .has _ => []
+  | .info => []
+
+/-- the stores if the process dies after the first `k` storage operations of the call -/
+def crashDisk (C : Crypto) (s : Core × Disk) (op : Op) (k : Nat) : Disk := s.2.applyAll ((journalC C s op).take k)
+
 /-- the calls C01 quantifies over: `clear` with `start < end` is called with `start < length`; sizes
     stay within what the on-disk format can represent -/
 def Valid (a : Abs) : Op → Prop
